@@ -233,9 +233,7 @@ Lemma implies_normalized a b : implies (normalized a) (normalized b) <-> implies
 Proof. unfold implies. split; intros I rho; specialize (I rho); rewrite ?normalized_eval in *; exact I. Qed.
 
 (* ------------------------------------------------------------------ one step of entails *)
-Definition entails_general (rec : spol -> spol -> eres) (a b : spol) : eres :=
-  let an := normalized a in
-  let bn := normalized b in
+Definition entails_general (rec : spol -> spol -> eres) (an bn : spol) : eres :=
   if negb (fc_assert_ok an) then EPanic
   else
     let fc := first_constraint an in
@@ -249,22 +247,21 @@ Definition entails_general (rec : spol -> spol -> eres) (a b : spol) : eres :=
 Lemma entails_f_step f a b :
   entails_f (S f) a b =
   if ENTAILMENT_MAX_TERMINALS <? n_terminals a then ENone
-  else if is_unsat a then ESome true
-  else if is_triv a then ESome (is_triv b)
-  else if is_unsat b then ESome false
-  else entails_general (entails_f f) a b.
+  else if is_unsat (normalized a) then ESome true
+  else if is_triv (normalized a) then ESome (is_triv (normalized b))
+  else if is_unsat (normalized b) then ESome false
+  else entails_general (entails_f f) (normalized a) (normalized b).
 Proof.
   cbn [entails_f]. destruct (ENTAILMENT_MAX_TERMINALS <? n_terminals a); [reflexivity|].
-  destruct a; destruct b; reflexivity.
+  cbv zeta. destruct (normalized a); destruct (normalized b); reflexivity.
 Qed.
 
-(* ------------------------------------------------------------------ correctness on normal arguments *)
+(* ------------------------------------------------------------------ correctness *)
 Definition ent_ok (a b : spol) (res : eres) : Prop :=
   exists r, res = ESome r /\ (r = true <-> implies a b).
 
 Definition P (n : nat) : Prop :=
   forall a b, n_terminals a <= n -> n_terminals a <= ENTAILMENT_MAX_TERMINALS ->
-              is_normal a = true -> is_normal b = true ->
               ent_ok a b (entails_f (S (S n)) a b).
 
 Lemma sc_implies w an bn v : is_leaf w = true ->
@@ -277,31 +274,27 @@ Qed.
 Lemma is_leaf_not_thresh w : is_leaf w = true -> is_thresh w = false.
 Proof. unfold is_leaf. destruct w; simpl; congruence. Qed.
 
-Lemma general_ok n' : P n' -> forall a b,
-  is_const (normalized a) = false ->
-  n_terminals (normalized a) <= S n' -> n_terminals (normalized a) <= ENTAILMENT_MAX_TERMINALS ->
-  ent_ok a b (entails_general (entails_f (S (S n'))) a b).
+Lemma general_ok n' : P n' -> forall an bn,
+  is_normal an = true -> is_normal bn = true -> is_const an = false ->
+  n_terminals an <= S n' -> n_terminals an <= ENTAILMENT_MAX_TERMINALS ->
+  ent_ok an bn (entails_general (entails_f (S (S n'))) an bn).
 Proof.
-  intros IH a b Hc Hn H20. unfold entails_general.
-  pose proof (normalized_normal a) as Na. pose proof (normalized_normal b) as Nb.
-  set (an := normalized a) in *. set (bn := normalized b) in *.
+  intros IH an bn Na Nb Hc Hn H20. unfold entails_general.
   rewrite (normal_fc_assert an Na), (normal_sc_assert an Na), (normal_sc_assert bn Nb).
   destruct (first_constraint_leaf an Na Hc) as [L I].
   set (fc := first_constraint an) in *.
   rewrite (is_leaf_not_thresh fc L). cbn [negb andb orb].
   pose proof (nt_sc_lt fc true an L I) as Lt1. pose proof (nt_sc_lt fc false an L I) as Lt2.
-  assert (Sh : implies a b <->
-    (forall rho, evalA (upd rho fc true) an = true -> evalA (upd rho fc true) bn = true) /\
-    (forall rho, evalA (upd rho fc false) an = true -> evalA (upd rho fc false) bn = true)).
-  { rewrite <- (implies_normalized a b). apply shannon. }
+  pose proof (shannon fc an bn) as Sh.
   destruct (IH (satisfy_constraint an fc true) (satisfy_constraint bn fc true))
-    as (r1 & E1 & R1); [lia|lia|apply sc_normal|apply sc_normal|].
+    as (r1 & E1 & R1); [lia|lia|].
   rewrite E1. rewrite (sc_implies fc an bn true L) in R1.
   destruct r1.
   - destruct (IH (satisfy_constraint an fc false) (satisfy_constraint bn fc false))
-      as (r2 & E2 & R2); [lia|lia|apply sc_normal|apply sc_normal|].
+      as (r2 & E2 & R2); [lia|lia|].
     rewrite (sc_implies fc an bn false L) in R2.
-    exists r2. split; [exact E2|]. rewrite Sh, R2. split; [intro Hr; split; [apply R1; reflexivity|exact Hr]|intros [_ Hr]; exact Hr].
+    exists r2. split; [exact E2|]. rewrite Sh, R2.
+    split; [intro Hr; split; [apply R1; reflexivity|exact Hr]|intros [_ Hr]; exact Hr].
   - exists false. split; [reflexivity|]. rewrite Sh. split; [discriminate|].
     intros [HT _]. apply R1. exact HT.
 Qed.
@@ -311,49 +304,6 @@ Proof.
   intros Na Hc. destruct (first_constraint_leaf a Na Hc) as [_ I].
   rewrite nt_leaves. destruct (leaves_of a); [contradiction|simpl; lia].
 Qed.
-
-Lemma normal_entails : forall n, P n.
-Proof.
-  induction n as [|n' IH]; intros a b Hn H20 Na Nb.
-  - (* no terminals: a is a constant *)
-    rewrite entails_f_step.
-    destruct (Nat.ltb_spec ENTAILMENT_MAX_TERMINALS (n_terminals a)); [lia|].
-    destruct a; try (simpl in Hn; lia).
-    + exists true. split; [reflexivity|]. split; [intros _ rho; discriminate|reflexivity].
-    + cbn [is_unsat is_triv]. exists (is_triv b). split; [reflexivity|].
-      destruct b; cbn [is_triv]; split; try discriminate; try reflexivity; try (intros _ rho _; reflexivity);
-        intro I; specialize (I (fun _ => false) eq_refl);
-        rewrite normal_all_false in I by (try exact Nb; discriminate); discriminate.
-    + pose proof (normal_nonconst_nt _ Na eq_refl). lia.
-  - rewrite entails_f_step.
-    destruct (Nat.ltb_spec ENTAILMENT_MAX_TERMINALS (n_terminals a)); [lia|].
-    destruct (is_unsat a) eqn:Ua.
-    { destruct a; try discriminate. exists true. split; [reflexivity|]. split; [intros _ rho; discriminate|reflexivity]. }
-    destruct (is_triv a) eqn:Ta.
-    { destruct a; try discriminate. exists (is_triv b). split; [reflexivity|].
-      destruct b; cbn [is_triv]; split; try discriminate; try reflexivity; try (intros _ rho _; reflexivity);
-        intro I; specialize (I (fun _ => false) eq_refl);
-        rewrite normal_all_false in I by (try exact Nb; discriminate); discriminate. }
-    assert (Hca : is_const a = false) by (destruct a; simpl in *; congruence).
-    destruct (is_unsat b) eqn:Ub.
-    { destruct b; try discriminate. exists false. split; [reflexivity|]. split; [discriminate|].
-      intro I. specialize (I (fun _ => true)).
-      rewrite normal_all_true in I by (try exact Na; destruct a; simpl in *; congruence).
-      specialize (I eq_refl). discriminate. }
-    apply general_ok; [exact IH| | |]; rewrite (normal_fix a Na); assumption.
-Qed.
-
-(* ------------------------------------------------------------------ theorems about entails *)
-Lemma nt_guard_none a b : ENTAILMENT_MAX_TERMINALS < n_terminals a -> entails a b = ENone.
-Proof.
-  intro H. unfold entails. rewrite entails_f_step.
-  destruct (Nat.ltb_spec ENTAILMENT_MAX_TERMINALS (n_terminals a)); [reflexivity|lia].
-Qed.
-
-Theorem entails_exact_normal a b :
-  is_normal a = true -> is_normal b = true -> n_terminals a <= ENTAILMENT_MAX_TERMINALS ->
-  exists r, entails a b = ESome r /\ (r = true <-> implies a b).
-Proof. intros Na Nb H20. apply normal_entails; [apply le_n|exact H20|exact Na|exact Nb]. Qed.
 
 Lemma implies_unsat_l a b : normalized a = SUnsat -> implies a b.
 Proof. intros E rho Ha. rewrite <- (normalized_eval rho a), E in Ha. discriminate. Qed.
@@ -369,101 +319,56 @@ Proof. destruct p; simpl; split; congruence. Qed.
 Lemma is_unsat_eq p : is_unsat p = true <-> p = SUnsat.
 Proof. destruct p; simpl; split; congruence. Qed.
 
-(* the general branch when the first argument normalizes to a constant *)
-Lemma general_const f a b :
-  is_const (normalized a) = true ->
-  entails_general (entails_f (S f)) a b =
-  ESome (if is_unsat (normalized a) then is_const (normalized b) else is_triv (normalized b)).
+(* one unfolding: the head matches are right for every pair of arguments *)
+Lemma step_ok n :
+  (forall an bn, is_normal an = true -> is_normal bn = true -> is_const an = false ->
+                 n_terminals an <= n -> n_terminals an <= ENTAILMENT_MAX_TERMINALS ->
+                 ent_ok an bn (entails_general (entails_f (S n)) an bn)) ->
+  P n.
 Proof.
-  intro Hc. unfold entails_general.
-  pose proof (normalized_normal a) as Na. pose proof (normalized_normal b) as Nb.
-  set (an := normalized a) in *. set (bn := normalized b) in *.
-  rewrite (normal_fc_assert an Na), (normal_sc_assert an Na), (normal_sc_assert bn Nb).
-  destruct an eqn:Ean; try discriminate; cbn [first_constraint is_thresh negb andb orb is_unsat].
-  - (* an = Unsat: witness Unsat *)
-    cbn [satisfy_constraint spol_eqb].
-    assert (Eb1 : satisfy_constraint bn SUnsat true = if is_unsat bn then STriv else bn).
-    { destruct (is_unsat bn) eqn:U; [apply is_unsat_eq in U; rewrite U; reflexivity|].
-      apply sc_const_id; [reflexivity|exact Nb|intro E; rewrite E in U; discriminate]. }
-    rewrite Eb1, entails_f_step. cbn [n_terminals is_unsat is_triv].
-    destruct (Nat.ltb_spec ENTAILMENT_MAX_TERMINALS 0); [unfold ENTAILMENT_MAX_TERMINALS in *; lia|].
-    destruct bn; cbn [is_unsat is_triv is_const]; try reflexivity;
-      rewrite entails_f_step; reflexivity.
-  - (* an = Triv: witness Triv *)
-    cbn [satisfy_constraint spol_eqb].
-    assert (Eb1 : satisfy_constraint bn STriv true = bn).
-    { destruct (is_triv bn) eqn:T; [apply is_triv_eq in T; rewrite T; reflexivity|].
-      apply sc_const_id; [reflexivity|exact Nb|intro E; rewrite E in T; discriminate]. }
-    rewrite Eb1, entails_f_step. cbn [n_terminals is_unsat is_triv].
-    destruct (Nat.ltb_spec ENTAILMENT_MAX_TERMINALS 0); [unfold ENTAILMENT_MAX_TERMINALS in *; lia|].
-    destruct (is_triv bn); [|reflexivity].
-    rewrite entails_f_step. reflexivity.
+  intros Hgen a b Hn H20. rewrite entails_f_step.
+  destruct (Nat.ltb_spec ENTAILMENT_MAX_TERMINALS (n_terminals a)); [lia|].
+  pose proof (nt_normalized a) as Hle.
+  destruct (is_unsat (normalized a)) eqn:Ua.
+  { exists true. split; [reflexivity|]. split; [intros _|reflexivity].
+    apply implies_unsat_l. apply is_unsat_eq. exact Ua. }
+  destruct (is_triv (normalized a)) eqn:Ta.
+  { apply is_triv_eq in Ta. exists (is_triv (normalized b)). split; [reflexivity|].
+    destruct (is_triv (normalized b)) eqn:Tb.
+    - split; [intros _|reflexivity]. apply implies_triv_r. apply is_triv_eq. exact Tb.
+    - split; [discriminate|]. intro I. specialize (I (fun _ => false)).
+      rewrite <- (normalized_eval _ a), Ta in I. specialize (I eq_refl).
+      rewrite not_taut in I; [discriminate|]. intro E. rewrite E in Tb. discriminate. }
+  destruct (is_unsat (normalized b)) eqn:Ub.
+  { apply is_unsat_eq in Ub. exists false. split; [reflexivity|]. split; [discriminate|].
+    intro I. specialize (I (fun _ => true)). rewrite sat_of in I.
+    - specialize (I eq_refl). rewrite <- normalized_eval, Ub in I. discriminate.
+    - intro E. rewrite E in Ua. discriminate. }
+  assert (Hc : is_const (normalized a) = false) by (destruct (normalized a); simpl in *; congruence).
+  destruct (Hgen (normalized a) (normalized b)) as (r & E & R);
+    [apply normalized_normal|apply normalized_normal|exact Hc|lia|lia|].
+  exists r. split; [exact E|]. rewrite R. apply implies_normalized.
 Qed.
 
-(* exact outside the defect class *)
-Theorem entails_exact_except a b :
-  entails_defect a b = false -> n_terminals a <= ENTAILMENT_MAX_TERMINALS ->
+Lemma entails_all : forall n, P n.
+Proof.
+  induction n as [|n' IH]; apply step_ok.
+  - intros an bn Na _ Hc Hn _. pose proof (normal_nonconst_nt an Na Hc). lia.
+  - intros an bn Na Nb Hc Hn H20. apply general_ok; assumption.
+Qed.
+
+(* ------------------------------------------------------------------ theorems about entails *)
+Lemma nt_guard_none a b : ENTAILMENT_MAX_TERMINALS < n_terminals a -> entails a b = ENone.
+Proof.
+  intro H. unfold entails. rewrite entails_f_step.
+  destruct (Nat.ltb_spec ENTAILMENT_MAX_TERMINALS (n_terminals a)); [reflexivity|lia].
+Qed.
+
+(* entailment answers agree with truth-table implication: all arguments up to the guard *)
+Theorem entails_exact a b :
+  n_terminals a <= ENTAILMENT_MAX_TERMINALS ->
   exists r, entails a b = ESome r /\ (r = true <-> implies a b).
-Proof.
-  intros D H20. unfold entails. rewrite entails_f_step.
-  destruct (Nat.ltb_spec ENTAILMENT_MAX_TERMINALS (n_terminals a)); [lia|].
-  destruct (is_unsat a) eqn:Ua.
-  { apply is_unsat_eq in Ua. subst a. exists true. split; [reflexivity|]. split; [intros _ rho; discriminate|reflexivity]. }
-  destruct (is_triv a) eqn:Ta.
-  { apply is_triv_eq in Ta. subst a. cbn [entails_defect] in D. exists (is_triv b). split; [reflexivity|].
-    destruct (is_triv b) eqn:Tb.
-    - apply is_triv_eq in Tb. subst b. split; [intros _ rho _; reflexivity|reflexivity].
-    - cbn [negb andb] in D. split; [discriminate|]. intro I.
-      specialize (I (fun _ => false) eq_refl). rewrite not_taut in I; [discriminate|].
-      intro E. rewrite E in D. discriminate. }
-  assert (Dd : entails_defect a b = is_unsat (normalized a) && (is_unsat b || negb (is_const (normalized b))))
-    by (destruct a; try discriminate; reflexivity).
-  rewrite Dd in D. clear Dd.
-  destruct (is_unsat b) eqn:Ub.
-  { apply is_unsat_eq in Ub. subst b. exists false. split; [reflexivity|]. split; [discriminate|].
-    intro I. specialize (I (fun _ => true)). rewrite sat_of in I; [specialize (I eq_refl); discriminate|].
-    intro E. rewrite E in D. discriminate. }
-  cbn [orb] in D.
-  destruct (is_const (normalized a)) eqn:Ca.
-  - rewrite general_const by exact Ca.
-    destruct (is_unsat (normalized a)) eqn:Una.
-    + cbn [andb] in D. apply negb_false_iff in D. rewrite D.
-      exists true. split; [reflexivity|]. split; [intros _|reflexivity].
-      apply implies_unsat_l. apply is_unsat_eq. exact Una.
-    + assert (Tna : normalized a = STriv) by (destruct (normalized a); simpl in *; congruence).
-      exists (is_triv (normalized b)). split; [reflexivity|].
-      destruct (is_triv (normalized b)) eqn:Tb.
-      * split; [intros _|reflexivity]. apply implies_triv_r. apply is_triv_eq. exact Tb.
-      * split; [discriminate|]. intro I. specialize (I (fun _ => false)).
-        rewrite <- (normalized_eval _ a), Tna in I. specialize (I eq_refl).
-        rewrite not_taut in I; [discriminate|]. intro E. rewrite E in Tb. discriminate.
-  - pose proof (nt_normalized a) as Hle.
-    pose proof (normal_nonconst_nt _ (normalized_normal a) Ca) as H1.
-    destruct (n_terminals a) as [|n'] eqn:En; [lia|].
-    apply general_ok; [apply normal_entails|exact Ca|lia|lia].
-Qed.
-
-(* inside the defect class the answer is Some(false) although the implication holds *)
-Theorem entails_defect_wrong a b :
-  entails_defect a b = true -> n_terminals a <= ENTAILMENT_MAX_TERMINALS ->
-  entails a b = ESome false /\ implies a b.
-Proof.
-  intros D H20. unfold entails. rewrite entails_f_step.
-  destruct (Nat.ltb_spec ENTAILMENT_MAX_TERMINALS (n_terminals a)); [lia|].
-  destruct (is_unsat a) eqn:Ua.
-  { apply is_unsat_eq in Ua. subst a. discriminate. }
-  destruct (is_triv a) eqn:Ta.
-  { apply is_triv_eq in Ta. subst a. cbn [entails_defect] in D. apply andb_prop in D. destruct D as [D1 D2].
-    apply negb_true_iff in D1. rewrite D1. split; [reflexivity|]. apply implies_triv_r. apply is_triv_eq. exact D2. }
-  assert (Dd : entails_defect a b = is_unsat (normalized a) && (is_unsat b || negb (is_const (normalized b))))
-    by (destruct a; try discriminate; reflexivity).
-  rewrite Dd in D. clear Dd. apply andb_prop in D. destruct D as [Una D2].
-  assert (I : implies a b) by (apply implies_unsat_l; apply is_unsat_eq; exact Una).
-  destruct (is_unsat b) eqn:Ub; [split; [reflexivity|exact I]|].
-  cbn [orb] in D2. apply negb_true_iff in D2.
-  rewrite general_const by (destruct (normalized a); simpl in *; congruence).
-  rewrite Una, D2. split; [reflexivity|exact I].
-Qed.
+Proof. intro H20. apply entails_all; [apply le_n|exact H20]. Qed.
 
 (* the recursion always has enough fuel, and no panic site (the "unreachable" one and the
    debug assertions of first_constraint / satisfy_constraint) is ever reached *)
@@ -471,20 +376,9 @@ Theorem entails_total a b : exists r, entails a b = r /\ r <> EFuel /\ r <> EPan
   (r = ENone <-> ENTAILMENT_MAX_TERMINALS < n_terminals a).
 Proof.
   destruct (Nat.le_gt_cases (n_terminals a) ENTAILMENT_MAX_TERMINALS) as [H20|H20].
-  - destruct (entails_defect a b) eqn:D.
-    + destruct (entails_defect_wrong a b D H20) as [E _]. exists (ESome false).
-      repeat split; try exact E; try discriminate. lia.
-    + destruct (entails_exact_except a b D H20) as (r & E & _). exists (ESome r).
-      repeat split; try exact E; try discriminate. lia.
+  - destruct (entails_exact a b H20) as (r & E & _). exists (ESome r).
+    repeat split; try exact E; try discriminate. lia.
   - exists ENone. rewrite (nt_guard_none a b H20). repeat split; try discriminate. intros _. exact H20.
-Qed.
-
-(* the unrestricted statement is false *)
-Theorem entails_exact_refuted :
-  exists a b, wf a = true /\ wf b = true /\ entails a b = ESome false /\ implies a b.
-Proof.
-  exists STriv, (SThresh 1 [STriv; SKey 0]). split; [reflexivity|]. split; [reflexivity|].
-  apply entails_defect_wrong; [reflexivity|unfold ENTAILMENT_MAX_TERMINALS; simpl; lia].
 Qed.
 
 (* soundness in worlds: a positive answer is an implication in every world.  The converse
@@ -495,10 +389,8 @@ Proof.
   intros E w. unfold eval.
   destruct (Nat.le_gt_cases (n_terminals a) ENTAILMENT_MAX_TERMINALS) as [H20|H20];
     [|rewrite (nt_guard_none a b H20) in E; discriminate].
-  destruct (entails_defect a b) eqn:D.
-  - destruct (entails_defect_wrong a b D H20) as [_ I]. apply I.
-  - destruct (entails_exact_except a b D H20) as (r & Er & R). rewrite E in Er. inversion Er; subst.
-    apply R. reflexivity.
+  destruct (entails_exact a b H20) as (r & Er & R). rewrite E in Er. inversion Er; subst.
+  apply R. reflexivity.
 Qed.
 Theorem entails_worlds_incomplete :
   exists a b, entails a b = ESome false /\ forall w, eval w a = true -> eval w b = true.
